@@ -437,5 +437,13 @@ def _terminate_global_probes():  # pragma: no cover
     # This closes active probes at program exit. This is important for global
     # probes if reduction operations like min() are requested, because it tells
     # them that there is no more data and that they can proceed.
+    # A probe whose completion fails (e.g. min() over no data) must not keep
+    # the others from completing: the first error is reported at the end.
+    errors = []
     for probe in list(global_probes):
-        probe.deactivate()
+        try:
+            probe.deactivate()
+        except Exception as exc:
+            errors.append(exc)
+    if errors:
+        raise errors[0]
